@@ -238,6 +238,17 @@
 //@fn rodbus/src/client/message.rs | Serialize for RequestDetails::serialize | tags=C03,C06
         }
         impl Loggable for RequestDetails {}
+        // [C07,C20] the client's request decoding (logging): for a well-formed request, rendering it at any level walks exactly the
+        // values of the request without panic or overflow; what is printed is opaque (R28)
+//@item rodbus/src/client/message.rs | RequestDetailsDisplay
+        impl<'a> RequestDetailsDisplay<'a> {
+//@fn rodbus/src/client/message.rs | RequestDetailsDisplay<'a>::new | tags=C07,C20
+//@|    ensures r.request == request, r.level == level,
+//@fn rodbus/src/client/message.rs | std::fmt::Display for RequestDetailsDisplay<'_>::fmt | tags=C07,C20 | inherent r28 r4 | attr=#[verifier::exec_allows_no_decreases_clause]
+//@|    requires self.request.wf(),
+//@loop 0|            invariant it__0.wf(),
+//@loop 1|            invariant it__1.wf(),
+        }
 
         // ASSUMED queue invariant: a request is well-formed and not yet completed when it is taken from the command queue.
         // (It is established where requests are built - Channel::read_* / write_* create a fresh promise and validated ranges - and
